@@ -3,6 +3,7 @@ import copy
 import hashlib
 import os
 import random
+import sys
 import threading
 
 from .. import lib as vlib
@@ -522,6 +523,49 @@ def run_inplace(spec, rec, lib):
     rec.sample({"inplace_history": "long-lived trusted dict / envelope / key list mutated in place between calls"})
 
 
+def _interpreter_settings():
+    import decimal
+    import gc
+    import locale
+    import warnings
+
+    out = {"int_max_str_digits": sys.get_int_max_str_digits() if hasattr(sys, "get_int_max_str_digits") else None,
+           "recursionlimit": sys.getrecursionlimit(), "gc_enabled": gc.isenabled(), "decimal_prec": decimal.getcontext().prec,
+           "warnings_filters": len(warnings.filters), "cwd": os.getcwd()}
+    try:
+        out["locale"] = locale.setlocale(locale.LC_ALL)
+    except Exception:  # noqa: BLE001
+        out["locale"] = "?"
+    um = os.umask(0)
+    os.umask(um)
+    out["umask"] = um
+    return out
+
+
+def _state_panel(lib):
+    """verdicts that are sensitive to interpreter-wide settings (integer digit limit, recursion limit, locale ...): the SAME
+    calls are made at the start and at the end of a shard"""
+    A, C, S = lib.authentication, lib.common, lib.signing
+    k = gkeys.key(2)
+    big = {"signatures": {k.hex: {"signature": "ab" * 64}}, "signed": {"n": (10**5000 - 1)}}
+    bigt = {"signatures": {}, "signed": {"n": 1}}
+    deep = jsonvals.deep(400)
+    calls = [
+        ("verify_signable[5000-digit int in payload]", lambda: A.verify_signable(big, [k.hex], 1)),
+        ("verify_signable[5000-digit threshold]", lambda: A.verify_signable(bigt, [k.hex], (10**5000 - 1))),
+        ("canonserialize[5000-digit int]", lambda: C.canonserialize([(7 * (10**4400 - 1) // 9)])),
+        ("canonserialize[depth 400]", lambda: len(C.canonserialize(deep))),
+        ("wrap_as_signable[depth 400]", lambda: type(S.wrap_as_signable(deep)).__name__),
+        ("checkformat_utc_isoformat", lambda: C.checkformat_utc_isoformat("2030-01-01T00:00:00Z") and None),
+        ("canonserialize[float]", lambda: C.canonserialize([1.5, 1e22, 0.1])),
+    ]
+    out = []
+    for name, f in calls:
+        o = boundary.call(lib, f)
+        out.append((name, "return:%r" % (o.value,) if o.accepted else "raise:" + str(o.cls)))
+    return out
+
+
 def run_shard(spec, rec, lib):
     if spec.get("kind") == "inplace":
         return run_inplace(spec, rec, lib)
@@ -529,7 +573,27 @@ def run_shard(spec, rec, lib):
         d = os.path.join(spec["scratch"], "dé中")
         os.makedirs(d, exist_ok=True)
         os.chdir(d)
+    set0, panel0 = _interpreter_settings(), _state_panel(lib)
     {"args": run_args, "history": run_history, "threads": run_threads, "corpus": run_corpus}[spec["kind"]](spec, rec, lib)
+    # nothing the library did during this shard (judged calls and the unrelated activity in between: file loads of odd documents,
+    # interactive sessions, failing builders ...) may have changed an interpreter-wide setting that verdicts depend on
+    from ..engines import noise
+
+    ndir = os.path.join(spec.get("scratch") or ".", "provocations")
+    os.makedirs(ndir, exist_ok=True)
+    noise.provoke(lib, random.Random(spec.get("seed", 0)), ndir)
+    set1, panel1 = _interpreter_settings(), _state_panel(lib)
+    rec.count("process_state_panels_compared")
+    changed = {k2: (set0[k2], v) for k2, v in set1.items() if set0.get(k2) != v}
+    flips = [(a[0], a[1][:60], b[1][:60]) for a, b in zip(panel0, panel1) if a != b]
+    if changed:
+        rec.count("hint_interpreter_setting_changed")
+        rec.extra["interpreter_settings_changed"] = {k2: [str(x) for x in v] for k2, v in changed.items()}
+    if flips:
+        rec.violation("history-dependence/process-wide-state/%s" % (",".join(sorted(changed)) or "unknown-setting"),
+                      "the same call gives another outcome at the end of the shard than at its start: %s changed from %s to %s; interpreter settings "
+                      "changed meanwhile: %s" % (flips[0][0], flips[0][1], flips[0][2], changed or "none of the monitored ones"),
+                      {"kind": "process_state", "flips": [list(f) for f in flips], "settings": {k2: [str(x) for x in v] for k2, v in changed.items()}})
 
 
 def finish(merged, tier, seed):
